@@ -25,10 +25,17 @@ func c08BlockwiseRun(e *Env) {
 	tr := PickTransport(t)
 	nNotes := 2 + t.Choose(5)
 	const bs = 16
+	// request slots: switched off, or the defaults of the configuration (one request at a time, NSTART 1) - the
+	// follow-up fetch of a block-wise notification is a request like any other
+	slots, nstart := int64(0), uint32(16)
+	if t.Chance(1, 2) {
+		slots, nstart = 1, 1
+	}
 	var w *CWorld
 	if IsDatagram(tr) {
 		cfg := SimUDPConfig(int32(t.Choose(65536)))
-		cfg.TransmissionNStart = 16
+		cfg.TransmissionNStart = nstart
+		cfg.LimitClientParallelRequests, cfg.LimitClientEndpointParallelRequests = slots, slots
 		cfg.TransmissionAcknowledgeTimeout = 1000 * time.Second
 		cfg.BlockwiseEnable = true
 		cfg.BlockwiseSZX = blockwise.SZX16
@@ -37,7 +44,7 @@ func c08BlockwiseRun(e *Env) {
 	} else {
 		w = NewCWorld(e, CWorldCfg{Transport: tr, TCPOpts: []tcp.Option{
 			options.WithBlockwise(true, blockwise.SZX16, 5*time.Second), options.WithCloseSocket(),
-			options.WithLimitClientParallelRequest(0), options.WithLimitClientEndpointParallelRequest(0),
+			options.WithLimitClientParallelRequest(slots), options.WithLimitClientEndpointParallelRequest(slots),
 		}})
 	}
 	if w == nil {
